@@ -23,6 +23,8 @@ M_z     == MacroDef("@z", <<"p1">>, L(<<DMap1("$or", L(<<DMap1("xor", L(<<S("p1"
                                                           DMap1("mov", L(<<DInt(0), S("p1")>>))>>))>>))
 \* a parameterised macro that forwards its own parameter to another parameterised macro with the SAME formal name
 M_fz    == MacroDef("@fz", <<"p1">>, L(<<DMap1("$and", L(<<DMap(<<DPair("@z", DNull), DPair("p1", S("p1"))>>), S("ret")>>))>>))
+\* a macro that hands its parameter r on to @z under @z's own formal name p1 (p1 is not a parameter of @sr)
+M_sr    == MacroDef("@sr", <<"r">>, L(<<DMap1("$and", L(<<DMap1("push", L(<<S("r")>>)), DMap(<<DPair("@z", DNull), DPair("p1", S("r"))>>)>>))>>))
 M_two   == MacroDef("@two", <<"p1", "p2">>, L(<<DMap1("mov", L(<<S("p1"), S("p2")>>))>>))
 M_outer == MacroDef("@outer", <<>>, L(<<DMap1("$and", L(<<S("@inner"), S("ret")>>))>>))
 M_inner == MacroDef("@inner", <<>>, L(<<S("leave")>>))
@@ -33,7 +35,7 @@ M_w     == MacroDef("@w", <<"a", "b">>, L(<<DMap1("$and", L(<<DMap1("mov", L(<<S
 M_l     == MacroDef("@l", <<>>, S("a"))
 \* a repeated group (`times' as a sibling key) as a macro body: every reference must honour the bounds
 M_rep   == MacroDef("@rep", <<>>, L(<<DMap(<<DPair("$and", L(<<S("push"), S("pop")>>)), DPair("times", DInt(2))>>)>>))
-AllMacros == <<M_one, M_grp, M_str, M_outer, M_inner, M_reg, M_fz, M_z, M_two, M_w, M_l, M_rep>>
+AllMacros == <<M_one, M_grp, M_str, M_outer, M_inner, M_reg, M_two, M_sr, M_fz, M_z, M_w, M_l, M_rep>>
 NM == Len(AllMacros)
 
 Call(name, args) == DMap(<<DPair(name, DNull)>> \o args)
@@ -42,6 +44,7 @@ Uses == { S("@one"), S("@grp"), S("@str"), S("@strq"), DMap1("@str", DMap1("time
           Call("@z", <<DPair("p1", S("eax"))>>), Call("@z", <<DPair("p1", S("ebx"))>>),
           \* an argument written as an unquoted YAML integer (0 is falsy in the implementation language)
           Call("@two", <<DPair("p1", DInt(0)), DPair("p2", S("eax"))>>),
+          Call("@sr", <<DPair("r", S("ebx"))>>),
           Call("@fz", <<DPair("p1", S("eax"))>>), Call("@fz", <<DPair("p1", S("ebx"))>>),
           Call("@two", <<DPair("p1", S("eax")), DPair("p2", S("ebx"))>>),
           Call("@two", <<DPair("p1", S("ebx")), DPair("p2", S("eax"))>>),
